@@ -60,13 +60,13 @@ var opTemplates = []opT{
 	{Name: "ob.PopFirst", Body: `x = s.ob.PopFirst(); if x isnt s.ob { log.Add('v', x) }`, ObWrite: true, ObMayDel: true, Group: "ob"},
 	{Name: "ob.PopLast", Body: `x = s.ob.PopLast(); if x isnt s.ob { log.Add('v', x) }`, ObWrite: true, ObMayDel: true, Group: "ob"},
 	{Name: "ob.Sort!", Body: `s.ob.Sort!()`, ObWrite: true, Group: "ob"},
-	{Name: "ob.Sort!(lt)", Body: `s.ob.Sort!({|x,y| String(x) > String(y) })`, ObWrite: true, Group: "ob"},
+	{Name: "ob.Sort!(lt)", Body: `s.ob.Sort!({|x,y| Display(x) > Display(y) })`, ObWrite: true, Group: "ob"},
 	{Name: "ob.Reverse!", Body: `s.ob.Reverse!()`, ObWrite: true, Group: "ob"},
 	{Name: "ob.Unique!", Body: `s.ob.Unique!()`, ObWrite: true, Group: "ob"},
 	{Name: "ob.CompareAndSet", Body: `log.Add('b', s.ob.CompareAndSet(#a, v, 'i_a'))`, ObWrite: true, Group: "ob"},
 	{Name: "ob.sub=", Body: `s.ob.sub = Object(v)`, ObWrite: true, ObMayAdd: true, Group: "ob"},
 	{Name: "ob.sub.Add", Body: `s.ob.sub.Add(v)`, Group: "ob"},
-	{Name: "ob.Sort!(lt)*4", Body: `for (i = 0; i < 4; ++i) { s.ob.Sort!({|x,y| String(x) > String(y) }); s.ob.Sort!({|x,y| String(x) < String(y) }) }`, ObWrite: true, Group: "ob"},
+	{Name: "ob.Sort!(lt)*4", Body: `for (i = 0; i < 4; ++i) { s.ob.Sort!({|x,y| Display(x) > Display(y) }); s.ob.Sort!({|x,y| Display(x) < Display(y) }) }`, ObWrite: true, Group: "ob"},
 	{Name: "ob.Sort!*4", Body: `for (i = 0; i < 4; ++i) { s.ob.Sort!(); s.ob.Reverse!() }`, ObWrite: true, Group: "ob"},
 	{Name: "ob[1]=*20", Body: `for (i = 0; i < 20; ++i) s.ob[1] = v`, ObWrite: true, ObMayAdd: true, Group: "ob"},
 	{Name: "ob.c=*20", Body: `for (i = 0; i < 20; ++i) s.ob.c = v`, ObWrite: true, ObMayAdd: true, Group: "ob"},
@@ -96,7 +96,7 @@ var opTemplates = []opT{
 	{Name: "ob.Join", Body: `log.Add('d', s.ob.Join(','))`, ObIter: true, Group: "ob"},
 	{Name: "ob.Max", Body: `if s.ob.Size(list:) > 0 { log.Add('v', s.ob.Max()) }`, Group: "ob"},
 	{Name: "ob.BinarySearch", Body: `log.Add('s', s.ob.BinarySearch(v))`, Group: "ob"},
-	{Name: "ob.BinarySearch(lt)", Body: `log.Add('s', s.ob.BinarySearch(v, {|x,y| String(x) < String(y) }))`, Group: "ob"},
+	{Name: "ob.BinarySearch(lt)", Body: `log.Add('s', s.ob.BinarySearch(v, {|x,y| Display(x) < Display(y) }))`, Group: "ob"},
 	{Name: "ob.sub", Body: `log.Add('v', s.ob.sub.Copy())`, Group: "ob"},
 	// shared record with rule and observer
 	{Name: "rec.a=", Body: `s.rec.a = v`, RecWrite: 1, Group: "rec"},
@@ -602,7 +602,11 @@ func TestC43(t *testing.T) {
 	for _, e := range kf.All("C43") {
 		// key = "op:<template name>": the operation template is not generated
 		if name, ok := strings.CutPrefix(e.Key, "op:"); ok && opByName[name] != nil {
-			excluded[name] = true
+			for i := range opTemplates {
+				if n := opTemplates[i].Name; n == name || strings.HasPrefix(n, name+"*") {
+					excluded[n] = true // the template and its burst variants
+				}
+			}
 			rec.Known(e.What)
 		}
 	}
@@ -626,7 +630,7 @@ func TestC43(t *testing.T) {
 		return
 	}
 
-	rt.Check(t, rec, "scripts", 200, 2000, func(t *rapid.T) {
+	rt.Check(t, rec, "scripts", 400, 2000, func(t *rapid.T) {
 		c := genC43(t, excluded)
 		writeJSON("c43_running.json", c) // journal before running: it is the replay file if the process dies
 		msg, st := runC43(c)
